@@ -110,6 +110,9 @@ def check_feeder_error(present: List[bool], running: List[bool], wid: int, too_l
         if present[i]:
             f = Future()
             f.set_running_or_notify_cancel()
+            # a done-callback that calls back into the executor (submit / shutdown take the non-reentrant
+            # shutdown lock): the lock must be free whenever user callbacks run
+            f.add_done_callback(lambda fut, i=i: log.add("cb", i, sl.held))
             futs[i] = f
             pending[i] = _WorkItem(f, len, (i,), {})
     run = [i for i in range(3) if running[i]]
@@ -132,6 +135,8 @@ def check_feeder_error(present: List[bool], running: List[bool], wid: int, too_l
                 return False
         elif f.done() or i not in pending:
             return False
+    if any(e[0] == "cb" and e[2] for e in log):
+        return False  # done-callbacks ran while the shutdown lock was held: a callback that re-submits deadlocks
     return log.count("wakeup", True) == 1 and not sl.held
 
 
